@@ -22,7 +22,7 @@ int main(int argc, char** argv) {
       {"C06", body_C06, 300, 3000, true, nullptr},
       {"C10", body_C10, 100, 1000, true, nullptr},
       {"C11", body_C11, 1500, 20000, true, nullptr},
-      {"C02", body_C02, 1200, 12000, true, nullptr},
+      {"C02", body_C02, 1200, 8000, true, nullptr},
       {"C04", body_C04, 500, 8000, true, extra_C04},
       {"C15", body_C15, 3000, 30000, true, nullptr},
   };
